@@ -121,6 +121,7 @@ type Analyzer struct {
 	recov []byte
 	// statistics for evidence
 	NegRsp, Accepted, Teardowns, StaleIntra, URepIEs, TermReports, ImmReports, Dups int
+	TxTimeouts, Retrans                                                             int
 	NoFaults                                                                        bool
 	// refused: rules whose removal the data plane refused (injected): they stay installed through no fault of the UPF
 	refused map[RuleKey]bool
@@ -223,6 +224,23 @@ func Analyze(tr *Trace) *Analyzer {
 				expectRsp = true
 				expectAccepted = target != nil
 			}
+		}
+
+		if op.K == "txto" && st.Pre != nil {
+			// C11: the counter of a URR moves with the emission of a report and with nothing else
+			for si, ps := range st.Pre.Slots {
+				if ps == nil || si >= len(st.Post.Slots) || st.Post.Slots[si] == nil {
+					continue
+				}
+				for id, u := range ps.URR {
+					if v, ok := st.Post.Slots[si].URR[id]; ok && v.SEQN != u.SEQN {
+						a.add("C11", "seqn-moved-without-report", fmt.Sprintf("session %#x URR %d: next UR-SEQN went from %d to %d when an unanswered Session Report Request was given up (no report was emitted)",
+							ps.LocalID, id, u.SEQN, v.SEQN), i)
+					}
+				}
+			}
+			a.TxTimeouts++
+			a.Retrans += st.Retrans
 		}
 
 		// ---- C08: correlation ----
